@@ -31,6 +31,9 @@ pub struct Program {
     /// fault injection (C09/C14): "", "panic", "undeclared_read", "undeclared_write", ...
     #[serde(default)]
     pub fault: String,
+    /// footprint class dropped from the declaration: "", "n_read", "n_write", "e_read", "e_write", "a_read", "a_write"
+    #[serde(default)]
+    pub omit: String,
 }
 
 pub static PROGRAMS: Mutex<Vec<Program>> = Mutex::new(Vec::new());
@@ -107,6 +110,15 @@ pub fn declared_footprint(p: &Program, warp: warp_core::WarpId, scope: &NodeId) 
         }
         _ => {}
     }
+    match p.omit.as_str() {
+        "n_read" => fp.n_read = Default::default(),
+        "n_write" => fp.n_write = Default::default(),
+        "e_read" => fp.e_read = Default::default(),
+        "e_write" => fp.e_write = Default::default(),
+        "a_read" => fp.a_read = Default::default(),
+        "a_write" => fp.a_write = Default::default(),
+        _ => {}
+    }
     fp
 }
 
@@ -117,24 +129,33 @@ fn interp_exec(k: usize, view: GraphView<'_>, scope: &NodeId, delta: &mut TickDe
     let b = res(&p.b, scope);
     let e = ids::edge(&p.e);
     let nk = |n: NodeId| NodeKey { warp_id: warp, local_id: n };
+    // 1. every read the program may perform, unconditionally and in the order of
+    //    spec/ParallelExec.tla `Reads` (so that enforcement outcomes are state-independent)
+    let mut own: Vec<WarpOp> = Vec::new();
     match p.kind.as_str() {
         "SetAtom" => {
-            if view.node(&a).is_some() && !is_desc(view.node_attachment(&a)) {
-                delta.push(WarpOp::SetAttachment {
+            let has = view.node(&a).is_some();
+            let att = view.node_attachment(&a);
+            if has && !is_desc(att) {
+                own.push(WarpOp::SetAttachment {
                     key: AttachmentKey::node_alpha(nk(a)),
                     value: Some(AttachmentValue::Atom(ids::atom(&p.p))),
                 });
             }
         }
         "CopyAtt" => {
+            let has_b = view.node(&b).is_some();
             let v = view.node_attachment(&a).cloned();
-            if view.node(&b).is_some() && !is_desc(v.as_ref()) && !is_desc(view.node_attachment(&b)) {
-                delta.push(WarpOp::SetAttachment { key: AttachmentKey::node_alpha(nk(b)), value: v });
+            let vb = view.node_attachment(&b);
+            if has_b && !is_desc(v.as_ref()) && !is_desc(vb) {
+                own.push(WarpOp::SetAttachment { key: AttachmentKey::node_alpha(nk(b)), value: v });
             }
         }
         "AddEdge" => {
-            if view.node(&a).is_some() && view.node(&b).is_some() {
-                delta.push(WarpOp::UpsertEdge {
+            let has_a = view.node(&a).is_some();
+            let has_b = view.node(&b).is_some();
+            if has_a && has_b {
+                own.push(WarpOp::UpsertEdge {
                     warp_id: warp,
                     record: EdgeRecord { id: e, from: a, to: b, ty: ids::ty(&p.ty) },
                 });
@@ -142,32 +163,77 @@ fn interp_exec(k: usize, view: GraphView<'_>, scope: &NodeId, delta: &mut TickDe
         }
         "DelEdgeFrom" => {
             let present = view.edges_from(&a).any(|r| r.id == e);
-            if present && !is_desc(view.edge_attachment(&e)) {
-                delta.push(WarpOp::DeleteEdge { warp_id: warp, from: a, edge_id: e });
+            let att = view.edge_attachment(&e);
+            if present && !is_desc(att) {
+                own.push(WarpOp::DeleteEdge { warp_id: warp, from: a, edge_id: e });
             }
         }
         "SetEdgeAtom" => {
-            if view.has_edge(&e) && !is_desc(view.edge_attachment(&e)) {
-                delta.push(WarpOp::SetAttachment {
+            let has = view.has_edge(&e);
+            let att = view.edge_attachment(&e);
+            if has && !is_desc(att) {
+                own.push(WarpOp::SetAttachment {
                     key: AttachmentKey::edge_beta(EdgeKey { warp_id: warp, local_id: e }),
                     value: Some(AttachmentValue::Atom(ids::atom(&p.p))),
                 });
             }
         }
         "UpsertNode" => {
-            delta.push(WarpOp::UpsertNode { node: nk(a), record: NodeRecord { ty: ids::ty(&p.ty) } });
+            own.push(WarpOp::UpsertNode { node: nk(a), record: NodeRecord { ty: ids::ty(&p.ty) } });
         }
         "RetypeByAtt" => {
             let hit = view.node_attachment(&a) == Some(&AttachmentValue::Atom(ids::atom(&p.p)));
             let ty = if hit { &p.ty } else { &p.ty2 };
-            delta.push(WarpOp::UpsertNode { node: nk(b), record: NodeRecord { ty: ids::ty(ty) } });
+            own.push(WarpOp::UpsertNode { node: nk(b), record: NodeRecord { ty: ids::ty(ty) } });
         }
         "DelNodeIso" => {
-            if view.node(&a).is_some() && view.edges_from(&a).next().is_none() && !is_desc(view.node_attachment(&a)) {
-                delta.push(WarpOp::DeleteNode { node: nk(a) });
+            let has = view.node(&a).is_some();
+            let isolated = view.edges_from(&a).next().is_none();
+            let att = view.node_attachment(&a);
+            if has && isolated && !is_desc(att) {
+                own.push(WarpOp::DeleteNode { node: nk(a) });
             }
         }
         _ => {}
+    }
+    // 2. injected undeclared reads (ids n3 / e2 are outside every declared footprint)
+    let x = ids::node("n3");
+    let ex = ids::edge("e2");
+    match p.fault.as_str() {
+        "read_node" => { let _ = view.node(&x); }
+        "read_adj" => { let _ = view.edges_from(&x).count(); }
+        "read_natt" => { let _ = view.node_attachment(&x); }
+        "read_eatt" => { let _ = view.edge_attachment(&ex); }
+        "read_edge" => { let _ = view.has_edge(&ex); }
+        _ => {}
+    }
+    // 3. the program's own ops
+    for op in own {
+        delta.push(op);
+    }
+    // 4. injected undeclared writes
+    let other = if warp == ids::warp("w0") { ids::warp("w1") } else { ids::warp("w0") };
+    match p.fault.as_str() {
+        "write_node" => delta.push(WarpOp::UpsertNode { node: nk(x), record: NodeRecord { ty: ids::ty("tA") } }),
+        "write_edge" => delta.push(WarpOp::UpsertEdge { warp_id: warp, record: EdgeRecord { id: ex, from: *scope, to: *scope, ty: ids::ty("tA") } }),
+        "write_edge_from" => delta.push(WarpOp::UpsertEdge { warp_id: warp, record: EdgeRecord { id: ex, from: x, to: *scope, ty: ids::ty("tA") } }),
+        "write_att" => delta.push(WarpOp::SetAttachment { key: AttachmentKey::node_alpha(nk(x)), value: Some(AttachmentValue::Atom(ids::atom("p0"))) }),
+        "del_node" => delta.push(WarpOp::DeleteNode { node: nk(x) }),
+        "del_edge" => delta.push(WarpOp::DeleteEdge { warp_id: warp, from: x, edge_id: ex }),
+        "cross_warp" => delta.push(WarpOp::UpsertNode { node: NodeKey { warp_id: other, local_id: *scope }, record: NodeRecord { ty: ids::ty("tA") } }),
+        "instance_upsert" => delta.push(WarpOp::UpsertWarpInstance { instance: warp_core::WarpInstance { warp_id: warp, root_node: *scope, parent: None } }),
+        "instance_delete" => delta.push(WarpOp::DeleteWarpInstance { warp_id: warp }),
+        "open_portal" => delta.push(WarpOp::OpenPortal {
+            key: AttachmentKey::node_alpha(nk(*scope)),
+            child_warp: other,
+            child_root: ids::node("n0"),
+            init: warp_core::PortalInit::Empty { root_record: NodeRecord { ty: ids::ty("tA") } },
+        }),
+        _ => {}
+    }
+    // 5. a plain executor panic, after everything was emitted
+    if p.fault == "panic" {
+        std::panic::panic_any("verif: injected executor panic".to_string());
     }
 }
 
